@@ -486,7 +486,7 @@ func envStream(r *rng, thorough bool) {
 				old.SetKey(starlark.String(k), envVals[r.below(len(envVals))]())
 			}
 		}
-		if r.chance(3) {
+		if r.chance(6) {
 			old.SetKey(starlark.String("something else"), starlark.String("x"))
 		}
 		nw := starlark.NewDict(0)
@@ -502,6 +502,10 @@ func envStream(r *rng, thorough bool) {
 		}
 		for _, kv := range items {
 			nw.SetKey(kv[0], clone(kv[1]))
+		}
+		if r.chance(4) { // differ only in a part that is not listed
+			changes = 0
+			nw.SetKey(starlark.String("something else"), starlark.String("z"))
 		}
 		for ; changes > 0; changes-- {
 			k := starlark.String(keys[r.below(len(keys))])
